@@ -69,7 +69,7 @@ func buildC07(tier string, seed int64) *Family {
 	cfg := docCfg{N: 3, A: 1, Names: "a,b", Pool: ",1,2,-1,x"}
 	nSeed := 60
 	if tier == "thorough" {
-		cfg = docCfg{N: 4, A: 1, Names: "a,b", Pool: ",0,1,2,10,-1,1.5,x,1x"}
+		cfg = docCfg{N: 4, A: 1, Names: "a,b", Pool: ",0,1,10,-1,x,1x"}
 		nSeed = 600
 	}
 	rel := []string{"=", "!=", "<", "<=", ">", ">="}
@@ -169,6 +169,13 @@ func buildC07(tier string, seed int64) *Family {
 		Rule: "instance = one comparison / boolean expression over the stated operand-type combinations (all 6 operators), at top level and inside predicates (seeded); " +
 			"case = explored symbolic path; non-trivial = Evaluate returned without panic",
 		Outside: []string{"relational operators between two strings or involving booleans", "not() of a number or string", "pool values with surrounding whitespace or exponent syntax (number() lexical grammar: C08)", "documents beyond the bounds"},
-		PerInst: 3 * time.Minute,
+		PerInst: c07PerInst(tier),
 	}
+}
+
+func c07PerInst(tier string) time.Duration {
+	if tier == "thorough" {
+		return 12 * time.Minute
+	}
+	return 3 * time.Minute
 }
